@@ -431,7 +431,9 @@ def safesubV : Variant → In → AV
 
 /-- safediv.  builtin.py default: `operator.truediv(x, y)` when `y` is a Number: raises
     `ZeroDivisionError` for two Python numbers and a zero divisor (`none`), numpy division for
-    (array, Number); array.py `_safediv`: `x * np.clip(np.reciprocal(y), None, finfo.max)`. -/
+    (array, Number); array.py `_safediv`: `x * np.clip(np.reciprocal(y), None, finfo.max)`, with an
+    integer/bool divisor array first converted to float64 (/repo 0be2287) — so the composition is
+    over the float classes for every divisor dtype. -/
 def safedivV : Variant → In → Option AV
   | .scalar, i => if i.cy.isZero then none else some (divNpA i.X i.Y)
   | .arrNum, i => some (divNpA i.X i.Y)
